@@ -247,13 +247,13 @@ void register_all()
 }
 #else
 // ---------------------------------------------------------------- sizing consequence
-template <Lay L, size_t N>
+template <Lay L, size_t N, class I = std::size_t>
 struct Sizing {
-    using IV = cv::vector_d<std::size_t, N>;
+    using IV = cv::vector_d<I, N>;
     using A = cb::array<cv::float1>;
     using SB = cb::strided<IV, A>;
     using LB = layout_t<L, IV, A>;
-    static std::string name() { return std::string("sizing/") + lay_name(L) + "/N=" + std::to_string(N); }
+    static std::string name() { return std::string("sizing/") + lay_name(L) + "/N=" + std::to_string(N) + (std::is_same_v<I, std::size_t> ? "" : std::string("/I=") + tname<I>()); }
     static Verdict run(const Case & c)
     {
         typename SB::configuration_t e;
@@ -272,7 +272,7 @@ struct Sizing {
         if constexpr (L == Lay::hilbert) {
             for (uint64_t x = 0; x < c.ext[0]; ++x) {
                 for (uint64_t y = 0; y < c.ext[1]; ++y) {
-                    ref::u128 p = LB::calculate_index({x, y}, e);
+                    ref::u128 p = LB::calculate_index({I(x), I(y)}, e);
                     maxpos = std::max(maxpos, p);
                 }
             }
@@ -282,7 +282,7 @@ struct Sizing {
             typename LB::contravariant_input_t::vector_t cc;
             for (size_t k = 0; k < N; ++k) {
                 corner[k] -= 1;
-                cc[k] = corner[k];
+                cc[k] = I(corner[k]);
             }
             maxpos = ref::morton(corner);
             if (ref::u128(LB::calculate_index(cc)) != maxpos) {
@@ -370,7 +370,12 @@ void register_all()
     Sizing<Lay::morton_port, 4>::reg();
 #ifndef VF_NO_HILBERT
     Sizing<Lay::hilbert, 2>::reg();
+    Sizing<Lay::hilbert, 2, uint16_t>::reg();
 #endif
+    // narrow coordinate scalars: the cell count must not be computed in the coordinate type
+    Sizing<Lay::morton_bmi2, 2, uint16_t>::reg();
+    Sizing<Lay::morton_port, 3, uint16_t>::reg();
+    Sizing<Lay::morton_port, 2, unsigned>::reg();
 }
 #endif
 }   // namespace
